@@ -35,7 +35,7 @@ func (rt *vpWellKnownRT) RoundTrip(req *http.Request) (*http.Response, error) {
 func vp_C16_wellknown() {
 	rt := &vpWellKnownRT{header: http.Header{}}
 	rt.fail = vpNondetBool("transport_fails")
-	rt.status = map[string]int{"200": 200, "404": 404, "500": 500, "301": 301}[vpChoice("status", "200", "404", "500", "301")]
+	rt.status = vpNondetInt("status", 100, 599) // any status code; only 200 counts
 	bodyKind := vpChoice("body", "delegates", "delegates-with-port", "no-m.server", "empty-m.server", "not-json")
 	switch bodyKind {
 	case "delegates":
